@@ -100,13 +100,16 @@ func c11Entries(r *rand.Rand, n int, big bool) []types.Entry {
 			bigBudget--
 		}
 		e := types.Entry{Key: key, Value: c11Bytes(r, vl), Tombstone: r.Intn(4) == 0}
-		switch r.Intn(6) {
+		switch r.Intn(8) {
 		case 0:
 			e.Version = 0
 		case 1:
 			e.Version = math.MaxInt64
 		case 2:
 			e.Version = 1
+		case 3:
+			// the field is an int64: timestamps from 2^63 on are negative there, and every bit counts
+			e.Version = []int64{-1, math.MinInt64, math.MinInt64 + 1, -(1 << 32), int64(-r.Int63n(1<<40)) - 1}[r.Intn(5)]
 		default:
 			e.Version = r.Int63n(1 << 40)
 		}
@@ -677,7 +680,7 @@ func genC11(tier string, seed int64) []core.Case {
 func init() {
 	core.Register(&core.Check{
 		Prop: "C11", Level: "exploration",
-		Rule: "roundtrip cases: 10 rounds each of decode(encode(x)) == x for Data, Index, Footer, Meta, table.Build read back through footer->index->data region and block by block->meta, and WAL write/read/reopen/append sequences, over generated entries (binary and empty keys/values, shared prefixes, lengths 0/1/255/256/65535/65536/70000 in every tenth case, versions 0/1/2^63-1, tombstones, block sizes 1..1MiB), plus 'huge' cases with one 16-20 MiB value in a wal sequence, a data block and a table; stability cases: 1-16 goroutines encode and log concurrently, every returned slice is cloned at return and compared with its clone after further encodings (value check) while they also append batches to one shared wal whose read-back must hold every batch whole, contiguous and in order, and the same workload with smaller counts under the race detector (a reused pool buffer is reported as a race); non-trivial = a round with a length field >= 256 or a shared prefix > 0 / encodings that overlapped in time; distinct by seed",
+		Rule: "roundtrip cases: 10 rounds each of decode(encode(x)) == x for Data, Index, Footer, Meta, table.Build read back through footer->index->data region and block by block->meta, and WAL write/read/reopen/append sequences, over generated entries (binary and empty keys/values, shared prefixes, lengths 0/1/255/256/65535/65536/70000 in every tenth case, versions 0/1/2^63-1 and negative ones (-1, -2^63, -2^32), tombstones, block sizes 1..1MiB), plus 'huge' cases with one 16-20 MiB value in a wal sequence, a data block and a table; stability cases: 1-16 goroutines encode and log concurrently, every returned slice is cloned at return and compared with its clone after further encodings (value check) while they also append batches to one shared wal whose read-back must hold every batch whole, contiguous and in order, and the same workload with smaller counts under the race detector (a reused pool buffer is reported as a race); non-trivial = a round with a length field >= 256 or a shared prefix > 0 / encodings that overlapped in time; distinct by seed",
 		Gen:  genC11, Run: runC11, BatchSize: 4, GoMaxProcs: 4, Parallel: 6,
 		RaceKinds:     map[string]bool{"stability-race": true},
 		MinNonTrivial: map[string]int{"quick": 100, "thorough": 4000},
